@@ -91,6 +91,15 @@ func (t *WeightedMerkleTrie) Update(key, value []byte, weight uint64) error {
 
 func (t *WeightedMerkleTrie) insert(node Node, prefix, key []byte, value Node) (int64, Node, error) {
 	if len(key) == 0 {
+		if h, ok := node.(*hashNode); ok {
+			// the existing value is collapsed: load it, otherwise its weight is not
+			// subtracted from the change
+			rn, err := t.resolveHashNode(h)
+			if err != nil {
+				return 0, nil, err
+			}
+			node = rn
+		}
 		if v, ok := node.(*valueNode); ok {
 			newVal := value.(*valueNode).value
 			if bytes.Equal(v.value, newVal) {
